@@ -1422,7 +1422,7 @@ func runScript(idx int, sc c17script) *caseObs {
 		r.st.fail(errors.New("harness: end of case"))
 	}
 	obs.Nontrivial = shutdownWithTwo
-	obs.Dist = append(obs.Dist, "mode:"+map[bool]string{true: "stream", false: "direct"}[sc.Stream], "c17script:"+sc.Name,
+	obs.Dist = append(obs.Dist, "mode:"+map[bool]string{true: "stream", false: "direct"}[sc.Stream], "c17script:"+strings.SplitN(sc.Name, "(", 2)[0],
 		"maxlive:"+liveBucket(maxLive), fmt.Sprintf("end:%d", obs.End))
 	return obs
 }
@@ -2125,7 +2125,9 @@ func scriptFor(seed uint64, tier string, k int) c17script {
 			return genLargeScript(rng, tier)
 		case j < nLarge17(tier)+nSweep17(tier):
 			n := j - nLarge17(tier) + 1
-			return largeScript(n, n%3 == 0)
+			sc := largeScript(n, n%3 == 0)
+			sc.Name = fmt.Sprintf("large-table-sweep(n=%d)", n)
+			return sc
 		}
 		return genCtorScript(rng, tier)
 	}
@@ -2505,12 +2507,23 @@ func runC17(res *hx.Result, rng *hx.Rng, tier string, outdir string) {
 	res.Rule = "operation sequences on one endPoint (MakeHandler with scripted table/stateful filters, nil or recording closers, queues of capacity 0..3; " +
 		"RemoveHandler of live, stale, negative and out-of-range ids; incoming messages of every type, directly through dispatch or through the stream and the " +
 		"endpoint's own process loop; Close with closers held inside their callback; read error on the stream; consumer receives), fixed scripts + random ones; " +
+		"tables of 65..300 handlers with removals and registrations at the ids next to the powers of two; endpoints built by EndPointFinalizer (operations inside " +
+		"the set-up callback) and NewEndPoint; " +
 		"non-trivial = a removal or shutdown happens while >= 2 handlers are registered; distinct by sha256 of the c17script text"
 	total := nCases17(tier)
 	obsPath := filepath.Join(outdir, "C17_obs.jsonl")
 	os.Remove(obsPath)
 	cf := hx.NewCases(outdir, "C17", "From QV Require Import Reader Message Endpoint C17Run.", "mismatches cases", res, "cases", "ocase")
 	next, crashes := 0, 0
+	if rg := strings.Split(os.Getenv("QV_C17_RANGE"), ":"); len(rg) == 2 {
+		// development aid: only the cases from:to (indices as in scriptFor); the verdict of such a run is partial
+		from, _ := strconv.Atoi(rg[0])
+		to, _ := strconv.Atoi(rg[1])
+		if from >= 0 && to <= total && from < to {
+			next, total = from, to
+			res.Notes = append(res.Notes, fmt.Sprintf("PARTIAL RUN: QV_C17_RANGE restricts the operation sequences to indices %d..%d", from, to-1))
+		}
+	}
 	done := map[int]*caseObs{}
 	for next < total && crashes < 25 {
 		cmd := exec.Command(os.Args[0], "--seed", fmt.Sprint(res.Seed), "--tier", tier, "--out", outdir, "C17.child")
